@@ -14,6 +14,67 @@ import terms as T
 from common import Ctx, Row, sites_to_obligations
 
 
+SHAPE = {  # kind -> operand denotations in the assembler's order
+    "neg": ["Rdst"], "end": ["Rdst"], "lddw": ["Rdst", "I64"], "ldabs": ["Iimm"], "ldind": ["Rsrc", "Iimm"],
+    "ldx": ["Rdst", "Msrc"], "st": ["Mdst", "Iimm"], "stx": ["Mdst", "Rsrc"], "xadd": ["Mdst", "Rsrc"], "ja": ["Ioff"],
+    "call": ["Iimm"], "exit": [], "tail_call": [],
+}
+
+
+def _text_denotes(d, v, flds, exp):
+    """None when the rendered text denotes the instruction's fields, else a description of the mismatch"""
+    from props.c16 import tokenise, parse_operand
+    desc, nm = flds.get("desc"), flds.get("name")
+    name = nm[1] if isinstance(nm, tuple) and nm and nm[0] == "lit" else None
+    if name is None:
+        return "name is not a literal"
+    if isinstance(desc, tuple) and desc and desc[0] == "lit":
+        pieces = (desc[1],)
+    elif isinstance(desc, tuple) and desc and desc[0] == "fmt":
+        pieces = desc[1]
+    else:
+        return "text is not a rendered string"
+    mn, optoks = tokenise(pieces)
+    mtxt = "".join(x if isinstance(x, str) else "{}" for x in mn)
+    k = d["kind"]
+    if k == "end":
+        if not (mtxt == name + "{}" and mn[-1][2] == ("v", "imm", 32) and mn[-1][1] == ""):
+            return "mnemonic %r is not %s<imm>" % (mtxt, name)
+    elif mtxt != name:
+        return "text starts with %r, name is %r" % (mtxt, name)
+    if k == "alu":
+        shape = ["Rdst", "Rsrc"] if d["src"] == "X" else ["Rdst", "Iimm"]
+    elif k == "jcond":
+        shape = ["Rdst", "Rsrc", "Ioff"] if d["src"] == "X" else ["Rdst", "Iimm", "Ioff"]
+    else:
+        shape = SHAPE.get(k)
+    if shape is None:
+        return "no operand shape for kind %s" % k
+    if len(optoks) != len(shape):
+        return "%d operands rendered, %d expected" % (len(optoks), len(shape))
+    F = {"dst": ("v", "dst", 8), "src": ("v", "src", 8), "off": ("v", "off", 16), "imm": ("v", "imm", 32)}
+    for tok, sh in zip(optoks, shape):
+        op = parse_operand(tok)
+        if op is None:
+            return "operand outside the assembler's grammar"
+        kind, vals = op[2], [x for _, x in op[3]]
+        if sh[0] == "R":
+            if kind != "Register" or vals[0] != T.zext(64, F[sh[1:]]):
+                return "operand should be register %s" % sh[1:]
+        elif sh[0] == "M":
+            if kind != "Memory" or vals[0] != T.zext(64, F[sh[1:]]) or T.trunc(16, vals[1]) != F["off"]:
+                return "operand should be [%s+off], offset rendered as %s" % (sh[1:], _sh(vals[1]) if len(vals) > 1 else "?")
+        elif sh == "I64":
+            if kind != "Integer" or vals[0] != exp["imm"]:
+                return "operand should be the merged 64-bit immediate"
+        else:
+            f = sh[1:]
+            w = 16 if f == "off" else 32
+            if kind != "Integer" or T.trunc(w, vals[0]) != F[f]:
+                return "operand should be %s, rendered as %s" % (f, _sh(vals[0]))
+    return None
+
+
 def run(rep, tier):
     cx = Ctx(rep, "std")
     root = cx.roles.api("disassembler::to_insn_vec")
@@ -27,6 +88,7 @@ def run(rep, tier):
     if p0 and p0["k"] == "bind":
         extra[p0["name"]] = "PROG"
     ra = rep.rule("R15.a", "every supported opcode has a disassembler arm with a name and a rendered text", floor=123)
+    rc = rep.rule("R15.c", "the text is the opcode's mnemonic followed by operands that denote the instruction's own fields, in the assembler's operand order", floor=123)
     rb = rep.rule("R15.b", "HLInsn fields are the decoded fields; imm is sext(imm) or the merged wide immediate; one push per instruction", floor=123)
     PC = ("v", "pc", 64)
     owner = lm.ev.owner_of(root)
@@ -48,6 +110,7 @@ def run(rep, tier):
             continue
         good = True
         why = ""
+        text_bad = []
         for s in live:
             pushes = [e for e in s.effects if e[0] == "call" and isinstance(e[1], str) and e[1].endswith("Vec<T, A>::push")]
             if len(pushes) != 1:
@@ -75,8 +138,14 @@ def run(rep, tier):
             nm = flds.get("name")
             if not nm:
                 good, why = False, "no name"
+            tw = _text_denotes(d, v, flds, exp)
+            if tw:
+                text_bad.append(tw)
         rep.ob(rb, "opc=%#04x" % v, good, "HLInsn produced for opcode %#04x" % v, expected="decoded fields, one push, pc advance",
                found=why or "as expected", sample=(v in (0x18, 0x07)))
+
+        rep.ob(rc, "opc=%#04x" % v, not text_bad, "rendered text of opcode %#04x" % v,
+               expected="mnemonic followed by the instruction's own operands in the assembler's syntax", found=sorted(set(text_bad))[:3] or "denotes the fields")
 
     rd = rep.rule("R15.d", "panic inventory of to_insn_vec under the stated precondition", floor=30)
     inv = cx.inventory()
